@@ -134,11 +134,15 @@ fn collect<'tcx>(tcx: TyCtxt<'tcx>) -> J {
                         }
                     }
                 }
-                consts.push(J::obj(vec![
+                let mut o = vec![
                     ("path", J::s(&tcx.def_path_str(did))),
                     ("ty", J::s(&format!("{}", ty))),
                     ("val", val),
-                ]));
+                ];
+                if tcx.hir_maybe_body_owned_by(ldid).is_some() {
+                    o.push(("hir", hirdump::dump_hir(tcx, ldid)));
+                }
+                consts.push(J::obj(o));
             }
             DefKind::Impl { .. } => {
                 let self_ty = tcx.type_of(did).instantiate_identity().skip_norm_wip();
